@@ -1,8 +1,8 @@
 (* BlocksFacts.v -- the source-block expansion strategy (Blocks.expand_block) only uses the
    primitives of the diagram: the structural and semantic invariants are preserved whatever the
    result, the loop terminates within max_nodes N + 2 levels, leaves stay minimal trap spaces.
-   The fast-forward of source variables keeps trap spaces and strictness; it does NOT clear the
-   cached candidates of the node (CacheOK needs an extra hypothesis, counterexample included). *)
+   The fast-forward of source variables keeps trap spaces and strictness; it discards the
+   candidates cached for the stub (fix 3581ec3), so CacheOK holds without extra hypothesis. *)
 From Coq Require Import List Bool Arith NArith Lia Permutation.
 Import ListNotations.
 From BB Require Import BN Brute SpaceFacts TrapFacts PercolateFacts Diagram Invariants DiagramStruct DiagramSem1 DiagramCache Termination MinExpandFacts Blocks.
@@ -21,6 +21,7 @@ Local Arguments source_valuations : simpl never.
 Local Arguments ensure_children : simpl never.
 Local Arguments ensure_all : simpl never.
 Local Arguments set_empty_seeds : simpl never.
+Local Arguments clear_cands : simpl never.
 Local Arguments group_blocks : simpl never.
 Local Arguments minimal_blocks : simpl never.
 Local Arguments sort_blocks : simpl never.
@@ -248,22 +249,72 @@ Proof.
   apply Hupd; [constructor|]. apply Hupd; [constructor|exact HP].
 Qed.
 
+(* the cache write of clear_cands *)
+Lemma clear_cands_unfold : forall d i, clear_cands d i = upd_node d i (fun y => set_cands y None).
+Proof. reflexivity. Qed.
+
+Lemma size_clear_cands : forall d i, size (clear_cands d i) = size d.
+Proof. intros d i. rewrite clear_cands_unfold. apply size_upd_node. Qed.
+
+Lemma sd_edges_clear_cands : forall d i, sd_edges (clear_cands d i) = sd_edges d.
+Proof. intros d i. rewrite clear_cands_unfold. apply sd_edges_upd_node. Qed.
+
+Lemma clear_cands_extends : forall d i, extends d (clear_cands d i).
+Proof. intros d i. rewrite clear_cands_unfold. apply upd_flag_extends. constructor. Qed.
+
+Lemma n_exp_clear_cands : forall d i j, n_exp (get (clear_cands d i) j) = n_exp (get d j).
+Proof.
+  intros d i j. rewrite clear_cands_unfold.
+  destruct (get_upd_node_cases d i j (fun y => set_cands y None)) as [Hg|(_ & _ & Hg)]; rewrite Hg;
+    reflexivity.
+Qed.
+
+Lemma get_clear_cands_other : forall d i j, j <> i -> get (clear_cands d i) j = get d j.
+Proof. intros d i j Hne. rewrite clear_cands_unfold, get_upd_node_neq by lia. reflexivity. Qed.
+
+(* any property stable under flag updates survives clear_cands *)
+Lemma clear_cands_flag : forall (P : sd -> Prop) d i,
+  (forall d0 f, flag_setter f -> P d0 -> P (upd_node d0 i f)) -> P d -> P (clear_cands d i).
+Proof.
+  intros P d i Hupd HP. rewrite clear_cands_unfold. apply Hupd; [constructor|exact HP].
+Qed.
+
+(* the closing writes of the fast-forward: expanded flag, candidates dropped, empty seeds *)
+Lemma ff_close_flag : forall (P : sd -> Prop) d i,
+  (forall d0 f, flag_setter f -> P d0 -> P (upd_node d0 i f)) -> P d ->
+  P (set_empty_seeds (clear_cands (upd_node d i (fun y => set_exp y true)) i) i).
+Proof.
+  intros P d i Hupd HP. apply set_empty_seeds_flag; [exact Hupd|].
+  apply clear_cands_flag; [exact Hupd|]. apply Hupd; [constructor|exact HP].
+Qed.
+
 (* the fast-forward of node x *)
 Definition ff_step (N : net) (d : sd) (x : nat) : sd :=
   set_empty_seeds
-    (upd_node (ensure_all N d x (ff_motifs N (n_space (get d x)))) x (fun y => set_exp y true)) x.
+    (clear_cands
+       (upd_node (ensure_all N d x (ff_motifs N (n_space (get d x)))) x (fun y => set_exp y true)) x) x.
 Definition ff_kids (N : net) (d : sd) (x : nat) : list nat :=
   snd (ensure_children N d x (ff_motifs N (n_space (get d x))) []).
 
 Lemma size_ff_step : forall N d x,
   size (ff_step N d x) = size (ensure_all N d x (ff_motifs N (n_space (get d x)))).
-Proof. intros N d x. unfold ff_step. rewrite size_set_empty_seeds, size_upd_node. reflexivity. Qed.
+Proof.
+  intros N d x. unfold ff_step. rewrite size_set_empty_seeds, size_clear_cands, size_upd_node. reflexivity.
+Qed.
+
+Lemma sd_edges_ff_step : forall N d x,
+  sd_edges (ff_step N d x) = sd_edges (ensure_all N d x (ff_motifs N (n_space (get d x)))).
+Proof.
+  intros N d x. unfold ff_step.
+  rewrite sd_edges_set_empty_seeds, sd_edges_clear_cands, sd_edges_upd_node. reflexivity.
+Qed.
 
 Lemma ff_step_extends : forall N d x, extends d (ff_step N d x).
 Proof.
   intros N d x. unfold ff_step.
   eapply extends_trans; [apply ensure_all_extends|].
-  eapply extends_trans; [apply upd_flag_extends; constructor|apply set_empty_seeds_extends].
+  eapply extends_trans; [apply upd_flag_extends; constructor|].
+  eapply extends_trans; [apply clear_cands_extends|apply set_empty_seeds_extends].
 Qed.
 
 Lemma ff_motifs_len : forall N d x m, SWF N d -> x < size d ->
@@ -285,7 +336,7 @@ Qed.
 
 Lemma n_exp_ff_step : forall N d x, x < size d -> n_exp (get (ff_step N d x) x) = true.
 Proof.
-  intros N d x Hx. unfold ff_step. rewrite n_exp_set_empty_seeds.
+  intros N d x Hx. unfold ff_step. rewrite n_exp_set_empty_seeds, n_exp_clear_cands.
   rewrite get_upd_node_eq; [reflexivity|].
   eapply extends_lt; [apply ensure_all_extends|exact Hx].
 Qed.
@@ -718,8 +769,8 @@ Qed.
 
 Lemma ff_step_SWF : forall N d x, SWF N d -> x < size d -> SWF N (ff_step N d x).
 Proof.
-  intros N d x Hswf Hx. unfold ff_step. apply set_empty_seeds_SWF.
-  apply upd_flag_SWF; [constructor|].
+  intros N d x Hswf Hx. unfold ff_step.
+  apply (ff_close_flag (SWF N)); [intros d0 f Hf H0; apply upd_flag_SWF; assumption|].
   apply (ensure_all_SWF N _ d x Hswf Hx). intros m Hin. eapply ff_motifs_len; eauto.
 Qed.
 
@@ -799,8 +850,7 @@ Lemma ff_step_TrapNodes : forall N d x, SWF N d -> TrapNodes N d -> x < size d -
   TrapNodes N (ff_step N d x).
 Proof.
   intros N d x Hswf Ht Hx. unfold ff_step.
-  apply (set_empty_seeds_flag (TrapNodes N)); [intros d0 f Hf H0; apply TrapNodes_upd; assumption|].
-  apply TrapNodes_upd; [constructor|].
+  apply (ff_close_flag (TrapNodes N)); [intros d0 f Hf H0; apply TrapNodes_upd; assumption|].
   assert (H : SWF N (ensure_all N d x (ff_motifs N (n_space (get d x)))) /\
               x < size (ensure_all N d x (ff_motifs N (n_space (get d x)))) /\
               TrapNodes N (ensure_all N d x (ff_motifs N (n_space (get d x))))).
@@ -836,8 +886,7 @@ Lemma ff_step_EdgeStrict : forall N d x, SWF N d -> EdgeStrict d -> x < size d -
   EdgeStrict (ff_step N d x).
 Proof.
   intros N d x Hswf He Hx Hex Hsrc. unfold ff_step.
-  apply (set_empty_seeds_flag EdgeStrict); [intros d0 f Hf H0; apply EdgeStrict_upd; assumption|].
-  apply EdgeStrict_upd; [constructor|].
+  apply (ff_close_flag EdgeStrict); [intros d0 f Hf H0; apply EdgeStrict_upd; assumption|].
   assert (Hsp : length (n_space (get d x)) = nvars N).
   { apply (swf_len N d Hswf). apply get_In. exact Hx. }
   assert (H : ES_inv N x (n_space (get d x)) (ensure_all N d x (ff_motifs N (n_space (get d x))))).
@@ -875,6 +924,7 @@ Lemma ff_step_NoStubEdges : forall N d x, SWF N d -> NoStubEdges d -> x < size d
 Proof.
   intros N d x Hswf Hn Hx. unfold ff_step.
   apply (set_empty_seeds_flag NoStubEdges); [intros d0 f Hf H0; apply NoStubEdges_upd; assumption|].
+  apply (clear_cands_flag NoStubEdges); [intros d0 f Hf H0; apply NoStubEdges_upd; assumption|].
   apply (NSE_inv_close N x _ (ff_NSE_inv N d x Hswf Hn Hx)).
 Qed.
 
@@ -893,8 +943,7 @@ Qed.
 Lemma ff_step_Rooted : forall N d x, SWF N d -> Rooted d -> x < size d -> Rooted (ff_step N d x).
 Proof.
   intros N d x Hswf Hr Hx. unfold ff_step.
-  apply (set_empty_seeds_flag Rooted); [intros d0 f _ H0; apply prim_Rooted_upd; exact H0|].
-  apply prim_Rooted_upd.
+  apply (ff_close_flag Rooted); [intros d0 f _ H0; apply prim_Rooted_upd; exact H0|].
   apply (C_ensure_all N x Rooted (fun _ => True)).
   - intros d0 m H0 _. apply prim_Rooted_child. exact H0.
   - exact Hr.
@@ -954,90 +1003,8 @@ Qed.
 (* 8. CacheOK                                                          *)
 (* ================================================================== *)
 
-(* The fast-forward overwrites the seeds and sets caches of the node but leaves its cached
-   candidates alone: candidates computed while the node was a stub carry the stub-time tag
-   (no successors), the fast-forwarded node has successors.  CacheOK therefore needs: *)
-Definition NoSrcCands (N : net) (d : sd) : Prop :=
-  forall i, i < size d -> n_exp (get d i) = false ->
-    sources_in_b N (n_space (get d i)) <> [] -> n_cands (get d i) = None.
-
-(* candidates are only ever dropped *)
-Definition cands_le (d d' : sd) : Prop :=
-  forall j, j < size d' ->
-    n_cands (get d' j) = None \/ (j < size d /\ n_cands (get d' j) = n_cands (get d j)).
-
-Lemma cands_le_refl : forall d, cands_le d d.
-Proof. intros d j Hj. right. split; [exact Hj|reflexivity]. Qed.
-
-Lemma cands_le_trans : forall d1 d2 d3, cands_le d1 d2 -> cands_le d2 d3 -> cands_le d1 d3.
-Proof.
-  intros d1 d2 d3 H12 H23 j Hj. destruct (H23 j Hj) as [H|[Hj2 H]]; [left; exact H|].
-  destruct (H12 j Hj2) as [H'|[Hj1 H']]; [left; congruence|right; split; [exact Hj1|congruence]].
-Qed.
-
-Lemma cands_le_upd : forall d i f,
-  (forall y, n_cands (f y) = None \/ n_cands (f y) = n_cands y) -> cands_le d (upd_node d i f).
-Proof.
-  intros d i f Hf j Hj. rewrite size_upd_node in Hj.
-  destruct (get_upd_node_cases d i j f) as [Hg|(_ & _ & Hg)]; rewrite Hg.
-  - right. split; [exact Hj|reflexivity].
-  - destruct (Hf (get d j)) as [H|H]; [left; exact H|right; split; [exact Hj|exact H]].
-Qed.
-
-Lemma cands_le_child : forall N d parent m, cands_le d (fst (ensure_node N d parent m)).
-Proof.
-  intros N d parent m j Hj. destruct (lt_dec j (size d)) as [Hlt|Hge].
-  - right. split; [exact Hlt|].
-    destruct (ensure_node_old N d parent m j Hlt) as (_ & _ & _ & _ & H & _). exact H.
-  - left. apply (ensure_node_new_cleared N d parent m j); [lia|exact Hj].
-Qed.
-
-Lemma cands_le_ensure_all : forall N subs d p, cands_le d (ensure_all N d p subs).
-Proof.
-  intros N subs. induction subs as [|m r IH]; intros d p; [apply cands_le_refl|].
-  rewrite ensure_all_cons. eapply cands_le_trans; [apply cands_le_child|apply IH].
-Qed.
-
-Lemma cands_le_set_empty_seeds : forall d i, cands_le d (set_empty_seeds d i).
-Proof.
-  intros d i. rewrite set_empty_seeds_unfold.
-  eapply cands_le_trans; apply cands_le_upd; intro y; right; reflexivity.
-Qed.
-
-Lemma cands_le_expand_one : forall N cfg d i, cands_le d (fst (expand_one N cfg d i)).
-Proof.
-  intros N cfg d i. destruct (expand_one N cfg d i) as [d' r] eqn:E. simpl.
-  assert (Hclr : forall y, n_cands (clear_attr y) = None \/ n_cands (clear_attr y) = n_cands y)
-    by (intro y; left; reflexivity).
-  assert (Hexp : forall y, n_cands (set_exp y true) = None \/ n_cands (set_exp y true) = n_cands y)
-    by (intro y; right; reflexivity).
-  destruct (expand_one_cases N cfg d i d' r E)
-    as [(_ & A & _)|[(_ & _ & A & _)|[(_ & _ & _ & A & _)|(_ & _ & _ & A & _)]]]; subst d'.
-  - apply cands_le_refl.
-  - eapply cands_le_trans; apply cands_le_upd; assumption.
-  - apply cands_le_upd. exact Hclr.
-  - eapply cands_le_trans; [apply cands_le_upd; exact Hclr|].
-    eapply cands_le_trans; [apply cands_le_ensure_all|apply cands_le_upd; exact Hexp].
-Qed.
-
-Lemma cands_le_ff_step : forall N d x, cands_le d (ff_step N d x).
-Proof.
-  intros N d x. unfold ff_step.
-  apply cands_le_trans with (d2 := ensure_all N d x (ff_motifs N (n_space (get d x))));
-    [apply cands_le_ensure_all|].
-  eapply cands_le_trans; [|apply cands_le_set_empty_seeds].
-  apply cands_le_upd. intro y. right. reflexivity.
-Qed.
-
-Lemma NoSrcCands_transfer : forall N d d', extends d d' -> cands_le d d' ->
-  NoSrcCands N d -> NoSrcCands N d'.
-Proof.
-  intros N d d' He Hc H j Hj Hex Hsrc. destruct (Hc j Hj) as [Hn|[Hjd Hn]]; [exact Hn|].
-  rewrite Hn. apply H; [exact Hjd| |].
-  - destruct (n_exp (get d j)) eqn:E; [|reflexivity].
-    rewrite (extends_exp d d' j He E) in Hex. discriminate Hex.
-  - rewrite <- (extends_space d d' j He Hjd). exact Hsrc.
-Qed.
+(* The fast-forward drops the candidates cached for the node while it was a stub (they carry
+   the stub-time tag: no successors) and writes the seeds and sets caches against the new tag. *)
 
 (* the tag of an unexpanded node does not depend on its out-edges *)
 Lemma cur_tag_unexp : forall d d' j, n_exp (get d j) = false -> n_exp (get d' j) = false ->
@@ -1058,45 +1025,44 @@ Proof.
   - left. apply ensure_node_new_cleared; [lia|exact Hj].
 Qed.
 
-(* while the stub p (without cached candidates) receives the fast-forward children *)
+(* while the stub p receives the fast-forward children *)
 Definition FI (N : net) (p : nat) (d : sd) : Prop :=
-  NSE_inv N p d /\ n_exp (get d p) = false /\ CacheOK d /\ n_cands (get d p) = None.
+  NSE_inv N p d /\ n_exp (get d p) = false /\ CacheOK d.
 
 Lemma FI_child : forall N p d m, FI N p d -> length m = nvars N ->
   FI N p (fst (ensure_node N d (Some p) m)).
 Proof.
-  intros N p d m (H1 & H2 & H3 & H4) Hm. pose proof H1 as (_ & Hp & _).
-  destruct (ensure_node_old N d (Some p) m p Hp) as (_ & He & _ & _ & Hcd & _).
+  intros N p d m (H1 & H2 & H3) Hm. pose proof H1 as (_ & Hp & _).
+  destruct (ensure_node_old N d (Some p) m p Hp) as (_ & He & _).
   split; [apply NSE_inv_child; assumption|]. split; [rewrite He; exact H2|].
-  split; [apply CacheOK_child_unexp; assumption|]. rewrite Hcd. exact H4.
+  apply CacheOK_child_unexp; assumption.
 Qed.
 
-Lemma ff_close_CacheOK : forall d1 x, x < size d1 -> CacheOK d1 -> n_cands (get d1 x) = None ->
-  CacheOK (set_empty_seeds (upd_node d1 x (fun y => set_exp y true)) x).
+(* the node ends with no candidates and with seeds and sets tagged by the current tag *)
+Lemma ff_close_CacheOK : forall d1 x, x < size d1 -> CacheOK d1 ->
+  CacheOK (set_empty_seeds (clear_cands (upd_node d1 x (fun y => set_exp y true)) x) x).
 Proof.
-  intros d1 x Hx Hc Hnc. remember (upd_node d1 x (fun y => set_exp y true)) as d2 eqn:Ed2.
+  intros d1 x Hx Hc. remember (upd_node d1 x (fun y => set_exp y true)) as d2 eqn:Ed2.
   assert (Hs2 : size d2 = size d1) by (subst d2; apply size_upd_node).
-  rewrite set_empty_seeds_unfold. intros j Hj. rewrite !size_upd_node, Hs2 in Hj.
+  rewrite set_empty_seeds_unfold, clear_cands_unfold. intros j Hj. rewrite !size_upd_node, Hs2 in Hj.
   unfold tag_ok. rewrite !cur_tag_upd_cache by constructor.
   destruct (Nat.eq_dec j x) as [Heq|Hne].
-  - subst j. rewrite get_upd_node_eq by (rewrite size_upd_node, Hs2; exact Hx).
-    rewrite get_upd_node_eq by (rewrite Hs2; exact Hx). simpl.
-    subst d2. rewrite get_upd_node_eq by exact Hx. simpl. rewrite Hnc. auto.
+  - subst j. rewrite !get_upd_node_eq by (rewrite ?size_upd_node, Hs2; exact Hx). simpl. auto.
   - rewrite !get_upd_node_neq by lia. subst d2. rewrite get_upd_node_neq by lia.
     rewrite cur_tag_upd_other by exact Hne. apply Hc. exact Hj.
 Qed.
 
 Lemma ff_step_CacheOK : forall N d x, SWF N d -> NoStubEdges d -> CacheOK d -> x < size d ->
-  n_exp (get d x) = false -> n_cands (get d x) = None -> CacheOK (ff_step N d x).
+  n_exp (get d x) = false -> CacheOK (ff_step N d x).
 Proof.
-  intros N d x Hswf Hn Hc Hx Hex Hnc. unfold ff_step.
+  intros N d x Hswf Hn Hc Hx Hex. unfold ff_step.
   assert (H : FI N x (ensure_all N d x (ff_motifs N (n_space (get d x))))).
   { apply (C_ensure_all N x (FI N x) (fun m => length m = nvars N)).
     - intros d0 m H0 Hm. apply FI_child; assumption.
-    - split; [|split; [exact Hex|split; assumption]].
+    - split; [|split; [exact Hex|exact Hc]].
       split; [exact Hswf|]. split; [exact Hx|]. apply NSE_open. exact Hn.
     - intros m Hin. eapply ff_motifs_len; eauto. }
-  destruct H as ((_ & Hx1 & _) & _ & Hc1 & Hn1). apply ff_close_CacheOK; assumption.
+  destruct H as ((_ & Hx1 & _) & _ & Hc1). apply ff_close_CacheOK; assumption.
 Qed.
 
 Lemma set_empty_seeds_CacheOK : forall d i, i < size d -> CacheOK d -> CacheOK (set_empty_seeds d i).
@@ -1106,70 +1072,32 @@ Proof.
   apply CacheOK_set_seeds; [exact Hi|apply tag_ok_cur|exact Hc].
 Qed.
 
-Theorem expand_block_CacheOK_weak : forall fuel N cfg d maa opt sz tape, SWF N d -> NoStubEdges d ->
-  CacheOK d -> (opt = true -> NoSrcCands N d) ->
-  CacheOK (fst (expand_block fuel N cfg d maa opt sz tape)).
+(* D13: before fix 3581ec3 the source shortcut kept n_cands of the stub; see KNOWN_FINDINGS.jsonl *)
+Theorem expand_block_CacheOK : forall fuel N cfg d maa opt sz tape, SWF N d -> NoStubEdges d ->
+  CacheOK d -> CacheOK (fst (expand_block fuel N cfg d maa opt sz tape)).
 Proof.
-  intros fuel N cfg d maa opt sz tape Hswf Hn Hc Hnc.
+  intros fuel N cfg d maa opt sz tape Hswf Hn Hc.
   assert (H : NoStubEdges (fst (expand_block fuel N cfg d maa opt sz tape)) /\
-              CacheOK (fst (expand_block fuel N cfg d maa opt sz tape)) /\
-              (opt = true -> NoSrcCands N (fst (expand_block fuel N cfg d maa opt sz tape)))).
-  { apply (block_transfer N cfg opt (fun d0 => NoStubEdges d0 /\ CacheOK d0 /\ (opt = true -> NoSrcCands N d0))).
-    - intros d0 x H1 (H2 & H3 & H4) _ _.
+              CacheOK (fst (expand_block fuel N cfg d maa opt sz tape))).
+  { apply (block_transfer N cfg opt (fun d0 => NoStubEdges d0 /\ CacheOK d0)).
+    - intros d0 x H1 (H2 & H3) _ _.
       destruct (expand_one_SNC N cfg d0 x (conj H1 (conj H2 H3))) as (_ & K2 & K3).
-      split; [exact K2|]. split; [exact K3|]. intro Ho.
-      apply (NoSrcCands_transfer N d0); [apply expand_one_extends|apply cands_le_expand_one|auto].
-    - intros d0 i _ (H2 & H3 & H4) Hi _. split; [|split].
+      split; assumption.
+    - intros d0 i _ (H2 & H3) Hi _. split.
       + apply (set_empty_seeds_flag NoStubEdges); [|exact H2].
         intros d1 f Hf0 H0. apply NoStubEdges_upd; assumption.
       + apply set_empty_seeds_CacheOK; assumption.
-      + intro Ho. apply (NoSrcCands_transfer N d0);
-          [apply set_empty_seeds_extends|apply cands_le_set_empty_seeds|auto].
-    - intros d0 x Ho H1 (H2 & H3 & H4) Hx Hex Hsrc. split; [|split].
+    - intros d0 x _ H1 (H2 & H3) Hx Hex _. split.
       + apply ff_step_NoStubEdges; assumption.
-      + apply ff_step_CacheOK; try assumption. apply (H4 Ho); assumption.
-      + intros _. apply (NoSrcCands_transfer N d0);
-          [apply ff_step_extends|apply cands_le_ff_step|auto].
+      + apply ff_step_CacheOK; assumption.
     - exact Hswf.
-    - split; [exact Hn|]. split; assumption. }
-  apply H.
+    - split; assumption. }
+  exact (proj2 H).
 Qed.
 
-(* without the source shortcut no extra hypothesis is needed *)
 Corollary expand_block_CacheOK_noopt : forall fuel N cfg d maa sz tape, SWF N d -> NoStubEdges d ->
   CacheOK d -> CacheOK (fst (expand_block fuel N cfg d maa false sz tape)).
-Proof.
-  intros fuel N cfg d maa sz tape Hswf Hn Hc. apply expand_block_CacheOK_weak; try assumption.
-  intro H. discriminate H.
-Qed.
-
-(* The counterexample to the unrestricted statement: one variable with the identity update
-   (a source), the root is a stub whose candidates were queried (two candidates, so no seeds
-   are derived), then expand_block with the source shortcut.  All invariants hold before, the
-   strategy reports completion, and the root keeps candidates tagged "no successors" although
-   it now has the two successors [x=0] and [x=1]. *)
-Definition cxc_net : net := [fun s => nth 0 s false].
-Definition cxc_cfg : config := {| max_motifs := 10 |}.
-Definition cxc_sd : sd :=
-  fst (step 0 cxc_net cxc_cfg (init cxc_net) (OCands 0 (OutLen 2 false))).
-
-Theorem expand_block_CacheOK_counterexample :
-  SWF cxc_net cxc_sd /\ NoStubEdges cxc_sd /\ CacheOK cxc_sd /\
-  TrapNodes cxc_net cxc_sd /\ EdgeStrict cxc_sd /\
-  snd (expand_block 5 cxc_net cxc_cfg cxc_sd true true None []) = RBool true /\
-  ~ CacheOK (fst (expand_block 5 cxc_net cxc_cfg cxc_sd true true None [])).
-Proof.
-  destruct (step_SNC 0 cxc_net cxc_cfg (init cxc_net) (OCands 0 (OutLen 2 false)) (init_SNC cxc_net))
-    as (H1 & H2 & H3).
-  split; [exact H1|]. split; [exact H2|]. split; [exact H3|]. split; [|split; [|split]].
-  - apply step_TrapNodes; [apply init_SWF|apply init_TrapNodes].
-  - apply step_EdgeStrict; [apply init_SWF|apply init_TrapNodes|apply init_EdgeStrict].
-  - vm_compute. reflexivity.
-  - intro H.
-    assert (Hs : 0 < size (fst (expand_block 5 cxc_net cxc_cfg cxc_sd true true None [])))
-      by (vm_compute; lia).
-    destruct (H 0 Hs) as (T & _). vm_compute in T. discriminate T.
-Qed.
+Proof. intros fuel N cfg d maa sz tape. apply expand_block_CacheOK. Qed.
 
 (* ================================================================== *)
 (* 9. leaves stay minimal trap spaces                                  *)
@@ -1204,6 +1132,7 @@ Lemma ff_step_LeafOK : forall N d x, SWF N d -> NoStubEdges d -> LeafOK N d -> x
   LeafOK N (ff_step N d x).
 Proof.
   intros N d x Hswf Hn Hl Hx. unfold ff_step. apply set_empty_seeds_LeafOK.
+  rewrite clear_cands_unfold. apply LeafOK_upd_neutral; [constructor|reflexivity|].
   assert (H : LE_inv N x (ensure_all N d x (ff_motifs N (n_space (get d x))))).
   { apply (C_ensure_all N x (LE_inv N x) (fun m => length m = nvars N)).
     - intros d0 m H0 Hm. apply LE_inv_child; assumption.
@@ -1346,23 +1275,23 @@ Proof.
   intros N d x Hx H.
   pose proof (ensure_all_extends N (ff_motifs N (n_space (get d x))) d x) as Hext.
   apply (CanonOrOut_grow N d (ff_step N d x) x); [apply extends_size; apply ff_step_extends| | | |exact H].
-  - intros j Hj Hne. unfold ff_step. rewrite get_set_empty_seeds_other by exact Hne.
+  - intros j Hj Hne.
+    rewrite (out_edges_same_edges (ensure_all N d x (ff_motifs N (n_space (get d x)))))
+      by apply sd_edges_ff_step.
+    unfold ff_step. rewrite get_set_empty_seeds_other, get_clear_cands_other by exact Hne.
     rewrite upd_flag_get_other by exact Hne.
-    rewrite (out_edges_same_edges (upd_node (ensure_all N d x (ff_motifs N (n_space (get d x)))) x
-                                            (fun y => set_exp y true)))
-      by apply sd_edges_set_empty_seeds.
-    rewrite out_edges_upd_node. rewrite ensure_all_out_other by exact Hne.
+    rewrite ensure_all_out_other by exact Hne.
     destruct (ensure_all_old N (ff_motifs N (n_space (get d x))) d x j Hj) as (A1 & A2 & A3 & _).
     auto.
   - intros j Hle Hlt. rewrite size_ff_step in Hlt. unfold ff_step.
     assert (Hne : j <> x) by lia.
-    rewrite get_set_empty_seeds_other by exact Hne. rewrite upd_flag_get_other by exact Hne.
+    rewrite get_set_empty_seeds_other, get_clear_cands_other by exact Hne.
+    rewrite upd_flag_get_other by exact Hne.
     apply (ensure_all_new N _ d x j Hle Hlt).
-  - intros _ _ _. right. unfold ff_step.
-    rewrite (out_edges_same_edges (upd_node (ensure_all N d x (ff_motifs N (n_space (get d x)))) x
-                                            (fun y => set_exp y true)))
-      by apply sd_edges_set_empty_seeds.
-    rewrite out_edges_upd_node. apply ensure_all_nonempty_out. apply ff_motifs_nonempty.
+  - intros _ _ _. right.
+    rewrite (out_edges_same_edges (ensure_all N d x (ff_motifs N (n_space (get d x)))))
+      by apply sd_edges_ff_step.
+    apply ensure_all_nonempty_out. apply ff_motifs_nonempty.
 Qed.
 
 Theorem expand_block_CanonOrOut : forall fuel N cfg d maa opt sz tape, 1 <= max_motifs cfg ->
@@ -1386,8 +1315,7 @@ Proof.
 Qed.
 
 Print Assumptions expand_block_SWF.
-Print Assumptions expand_block_CacheOK_weak.
-Print Assumptions expand_block_CacheOK_counterexample.
+Print Assumptions expand_block_CacheOK.
 Print Assumptions expand_block_terminates.
 Print Assumptions expand_block_Faithful.
 Print Assumptions expand_block_LeafOK.
